@@ -34,9 +34,14 @@ static const Opt OPTS[] = {
 static const size_t NOPTS = sizeof(OPTS) / sizeof(OPTS[0]);
 struct Alias { const char* alias; const char* canonical; };
 static const Alias ALIASES[] = {{"RFVoltage", "AcceleratingVoltage"}, {"SyncFreq", "SynchrotronFrequency"}, {"steps", "StepsPerTs"}};
+// one-letter command-line names (as documented by --help at the pinned commit)
+struct Short { const char* sh; const char* canonical; };
+static const Short SHORTS[] = {{"-o", "output"}, {"-n", "outstep"}, {"-v", "verbose"}, {"-N", "StepsPerTs"}, {"-p", "padding"}, {"-P", "PhaseSpaceSize"}, {"-s", "GridSize"},
+    {"-T", "rotations"}, {"-f", "SynchrotronFrequency"}, {"-F", "RevolutionFrequency"}, {"-d", "DampingTime"}, {"-H", "HarmonicNumber"}, {"-i", "InitialDistFile"},
+    {"-I", "BunchCurrent"}, {"-R", "BendingRadius"}, {"-E", "BeamEnergy"}, {"-e", "BeamEnergySpread"}, {"-Z", "Impedance"}, {"-G", "VacuumGap"}, {"-V", "AcceleratingVoltage"}};
 static const char* IGNORED[] = {"HaissinskiIterations", "InitialDistParam", "RotationType", "SaveSourceMap"};
 
-inline const Opt* find(const std::string& n) { for (size_t i = 0; i < NOPTS; i++) if (n == OPTS[i].name) return &OPTS[i]; return nullptr; }
+inline const Opt* find(const std::string& n) { for (auto& sh : SHORTS) if (n == sh.sh) return find(sh.canonical); for (size_t i = 0; i < NOPTS; i++) if (n == OPTS[i].name) return &OPTS[i]; return nullptr; }
 
 inline std::string hx(double v) { char b[48]; snprintf(b, 48, "%a", v); return b; }
 // exact textual image of every getter (hex floats)
@@ -88,7 +93,7 @@ inline void write_cfg(const std::string& path, const std::vector<Setting>& cfg) 
 // parse with the real class; returns 1 (run), 0 (parse() said: do not run), -1 (exception; what in err)
 inline int parse(ProgramOptions& po, const std::vector<Setting>& cli, const std::string& cfgpath, std::string& err) {
     std::vector<std::string> a = {"inovesa", "--config", cfgpath.empty() ? "/dev/null" : cfgpath};
-    for (auto& s : cli) { a.push_back("--" + s.name); const Opt* o = find(s.name); if (o && o->type == 'v') { for (auto& t : split(s.value)) a.push_back(t); } else a.push_back(s.value); }
+    for (auto& s : cli) { a.push_back(s.name[0] == '-' ? s.name : "--" + s.name); const Opt* o = find(s.name); if (o && o->type == 'v') { for (auto& t : split(s.value)) a.push_back(t); } else a.push_back(s.value); }
     std::vector<char*> av; for (auto& s : a) av.push_back(const_cast<char*>(s.c_str()));
     try { return po.parse((int)av.size(), av.data()) ? 1 : 0; }
     catch (std::exception& e) { err = e.what(); return -1; }
